@@ -18,7 +18,9 @@ var nCase int
 
 var methods = []string{"GET", "HEAD", "POST"}
 
-func noBody(status int) bool { return (status >= 100 && status <= 199) || status == 204 || status == 304 }
+func noBody(status int) bool {
+	return (status >= 100 && status <= 199) || status == 204 || status == 304
+}
 
 func impl(in hv.Val) hv.Val {
 	l := hv.AsList(in)
